@@ -94,6 +94,17 @@ let forest_of_queue (q : qtoken list) : tree list =
   List.rev !cur
 
 let cfg = { memchr = true; fixed3 = true; fixedlim = true }
+
+(* per-evaluation wall-clock guard: a diverging grammar can make the fuelled evaluators crawl *)
+exception Timeout
+let timeouts = ref 0
+let with_timeout (secs : float) (f : unit -> string) : string =
+  let old = Sys.signal Sys.sigalrm (Sys.Signal_handle (fun _ -> raise Timeout)) in
+  ignore (Unix.setitimer Unix.ITIMER_REAL { Unix.it_interval = 0.0; it_value = secs });
+  let r = (try f () with Timeout -> incr timeouts; "Fuel" | Stack_overflow -> "Fuel") in
+  ignore (Unix.setitimer Unix.ITIMER_REAL { Unix.it_interval = 0.0; it_value = 0.0 });
+  Sys.set_signal Sys.sigalrm old;
+  r
 let limit = 4000
 
 let names_of_g (g : grammar) = Array.of_list (List.map (fun r -> string_of_bytes r.rname) g)
@@ -105,6 +116,7 @@ let () =
   let gs : (string, bool * string * string * grammar * ogrammar) Hashtbl.t = Hashtbl.create 16 in
   let listers : (string, bool) Hashtbl.t = Hashtbl.create 16 in
   let known_lister = ref 0 in
+  let known_tag = ref 0 in
   let n = ref 0 and spec_fuel = ref 0 and known_empty = ref 0 in
   read_lines (fun line ->
     if String.length line > 0 && line.[0] = '#' then print_endline line else
@@ -123,14 +135,13 @@ let () =
          (* the specification on the original grammar *)
          let spec =
            if impl = "Limit" then "Fuel" else
-           (try match spec_parse g extras (fun _ -> None) input (nat_of_int 1500) (bytes_of rule) with
+           with_timeout 2.0 (fun () -> match spec_parse g extras (fun _ -> None) input (nat_of_int 1500) (bytes_of rule) with
               | SMatch (_, _, f) -> "Ok " ^ forest_string (names_of_g g) f
               | SFail -> "Err"
-              | SFuel -> "Fuel"
-            with Stack_overflow -> "Fuel") in
+              | SFuel -> "Fuel") in
          (* the model of the VM on the optimized rules *)
          let model =
-           (try
+           with_timeout 4.0 (fun () ->
               let env = vm_env og (fun _ -> None) in
               let r = run_state cfg env (nat_of_int 9000) (vm_start og (fun _ -> None) (bytes_of rule)) input (Some (nat_of_int limit)) false in
               match outcome_of cfg r with
@@ -140,9 +151,8 @@ let () =
                 let nm l = String.concat "," (List.sort compare (List.map (fun i -> name_of (names_of_og og) (int_of_nat i)) l)) in
                 Printf.sprintf "Err %d [%s] [%s]" (int_of_nat p) (nm ps) (nm ns)
               | OPanic -> "Panic"
-              | OOutOfFuel -> "Fuel"
-            with Stack_overflow -> "Fuel") in
-         if model <> impl then report "model" (full ^ " og=" ^ ogtxt) impl model;
+              | OOutOfFuel -> "Fuel") in
+         if model <> impl && not (model = "Fuel") then report "model" (full ^ " og=" ^ ogtxt) impl model;
          (* spec oracle: acceptance and forest; the error contents are not part of the Spec *)
          if impl = "Panic" && model = "Panic" && spec <> "Fuel" then begin
            (* PEEK/POP on an empty stack: ParserState documents a panic, the grammar documentation a failed match (known finding C01-emptystack) *)
@@ -151,6 +161,18 @@ let () =
          else if spec = "Fuel" || impl = "Limit" then incr spec_fuel
          else begin
            let impl_proj = if String.length impl >= 3 && String.sub impl 0 3 = "Err" then "Err" else impl in
+           let strip_tags (x : string) =
+             (* remove "#name" up to the following '(' *)
+             let b = Buffer.create (String.length x) in
+             let skipping = ref false in
+             String.iter (fun c -> if c = '#' then skipping := true else if c = '(' then (skipping := false; Buffer.add_char b c)
+                                   else if not !skipping then Buffer.add_char b c) x;
+             Buffer.contents b in
+           if impl_proj <> spec && extras && strip_tags impl_proj = strip_tags spec then begin
+             (* grammar-extras: tag_node labels whatever End token is last in the queue, also when the tagged
+                expression emitted no node of its own (known finding C01-node-tag) *)
+             incr known_tag; if !known_tag <= 2 then Printf.printf "KNOWN\tnodetag\t%s\t%s\t%s\n" (full ^ " og=" ^ ogtxt) impl spec
+           end else
            if impl_proj <> spec then begin
              if (try Hashtbl.find listers id with Not_found -> false) then begin
                (* the lister rewrite (x ~ y)* ~ x  =>  x ~ (y ~ x)* changed this grammar: known finding C05-lister *)
@@ -160,4 +182,4 @@ let () =
          end
        | _ -> ())
     | _ -> ());
-  Printf.printf "#RUNNER\tcases=%d\tmismatches=%d\tspec_undecided=%d\tknown_emptystack=%d\tknown_lister=%d\n" !n !mismatches !spec_fuel !known_empty !known_lister
+  Printf.printf "#RUNNER\tcases=%d\tmismatches=%d\tspec_undecided=%d\tknown_emptystack=%d\tknown_lister=%d\ttimeouts=%d\tknown_nodetag=%d\n" !n !mismatches !spec_fuel !known_empty !known_lister !timeouts !known_tag
